@@ -121,16 +121,36 @@ def sender_case(idxs):
 # ---------------------------------------------------------------------------
 # receiver
 
-def receiver_case(idxs, cuts, order, little):
+def _fields(mtype, nfds):
+    f = {1: {'path': '/p', 'member': 'M'},
+         2: {'reply_serial': 5},
+         3: {'reply_serial': 6, 'error_name': 'a.b.E'},
+         4: {'path': '/p', 'member': 'S', 'interface': 'a.b'}}[mtype]
+    f = dict(f)
+    if nfds:
+        f['unix_fds'] = nfds
+    return f
+
+
+def type_pattern(n, variant):
+    """message types of a stream: variant 0 = all method calls; others mix in
+    returns, signals and errors (a peer may attach descriptors to any of
+    them)"""
+    if variant == 0:
+        return (1,) * n
+    order = [2, 4, 3, 1]
+    return tuple(order[(k + variant - 1) % 4] for k in range(n))
+
+
+def receiver_case(idxs, cuts, order, little, types=None):
     """order: sequence of 'F' / 'C' saying which stream's next event comes"""
     msgs = _mk(idxs)
+    types = types or (1,) * len(msgs)
     raws = []
     for k, (sig, vals, fds) in enumerate(msgs):
-        f = {'path': '/p', 'member': 'M'}
-        if fds:
-            f['unix_fds'] = len(fds)
-        raws.append(R.encode_message(1, 50 + k, f, sig, vals, little=little,
-                                     fds=[]))
+        raws.append(R.encode_message(types[k], 50 + k,
+                                     _fields(types[k], len(fds)), sig, vals,
+                                     little=little, fds=[]))
     # probe at the end: one more descriptor message
     raws.append(R.encode_message(1, 99, {'path': '/p', 'member': 'Probe',
                                          'unix_fds': 1}, 'h', [777],
@@ -198,6 +218,63 @@ def _orders(msgs, chunk_ends, nchunks):
     return rec(0, 0, [])
 
 
+def _explore_stream(res, si, idxs, quick, variant):
+    """every cut set x every admissible arrival order for one stream"""
+    little = si % 2 == 0
+    msgs = _mk(idxs)
+    types = type_pattern(len(idxs), variant)
+    lens = []
+    for k, (sig, vals, fds) in enumerate(msgs):
+        lens.append(len(R.encode_message(
+            types[k], 50 + k, _fields(types[k], len(fds)), sig, vals,
+            little=little, fds=[])))
+    total = sum(lens)
+    ends = list(itertools.accumulate(lens))
+    cutsets = [()]
+    if len(idxs) <= 2:
+        cutsets += [(c,) for c in range(1, total)]
+    else:
+        cutsets += [(c,) for c in range(1, total)
+                    if any(abs(c - e) <= 2 for e in ends[:-1])]
+    if not quick and len(idxs) == 2:
+        near = [c for c in range(1, total)
+                if any(abs(c - e) <= 4 for e in ends[:-1])
+                or c <= 17 or 0 <= c - ends[0] <= 17]
+        cutsets += list(itertools.combinations(near, 2))
+    n_exec = 0
+    order = ()
+    for cuts in cutsets:
+        bounds = list(cuts) + [total]
+        chunk_ends = []
+        for e in ends:
+            chunk_ends.append(next(i for i, b in enumerate(bounds)
+                                   if e <= b))
+        for order in _orders(msgs, chunk_ends, len(bounds)):
+            found = receiver_case(idxs, cuts, order, little, types)
+            n_exec += 1
+            if found:
+                for tag, what in found:
+                    res.violation(
+                        '%s/receiver/%s%s' % (PROP, tag, '' if variant == 0
+                                              else '/mixed-types'),
+                        'messages %r (types %r), cuts %r, arrival order %s: '
+                        '%s' % ([BODIES[i][0] for i in idxs], list(types),
+                                list(cuts), ''.join(order), what),
+                        {'part': 'recv', 'idxs': list(idxs),
+                         'cuts': list(cuts), 'order': ''.join(order),
+                         'little': little, 'types': list(types)},
+                        size=len(idxs) * 100 + len(order) + variant)
+            if 'F' in order and order.index('F') > 0:
+                res.count('nontrivial')
+            res.outcome(''.join(order))
+    res.count('states')
+    if si % 40 == 0:
+        res.sample({'bodies': [BODIES[i][0] for i in idxs],
+                    'types': list(types), 'cut_sets': len(cutsets),
+                    'example_order': ''.join(order)})
+    return n_exec
+
+
 def _task_recv(task):
     quick, part, nparts = task
     res = core.Result()
@@ -211,56 +288,14 @@ def _task_recv(task):
     for si, idxs in enumerate(streams):
         if si % nparts != part:
             continue
-        little = si % 2 == 0
-        msgs = _mk(idxs)
-        lens = []
-        for k, (sig, vals, fds) in enumerate(msgs):
-            f = {'path': '/p', 'member': 'M'}
-            if fds:
-                f['unix_fds'] = len(fds)
-            lens.append(len(R.encode_message(1, 50 + k, f, sig, vals,
-                                             little=little, fds=[])))
-        total = sum(lens)
-        ends = list(itertools.accumulate(lens))
-        cutsets = [()]
-        if len(idxs) <= 2:
-            cutsets += [(c,) for c in range(1, total)]
-        else:
-            cutsets += [(c,) for c in range(1, total)
-                        if any(abs(c - e) <= 2 for e in ends[:-1])]
-        if not quick and len(idxs) == 2:
-            near = [c for c in range(1, total)
-                    if any(abs(c - e) <= 4 for e in ends[:-1])
-                    or c <= 17 or 0 <= c - ends[0] <= 17]
-            cutsets += list(itertools.combinations(near, 2))
-        for cuts in cutsets:
-            bounds = list(cuts) + [total]
-            chunk_ends = []
-            for e in ends:
-                chunk_ends.append(next(i for i, b in enumerate(bounds)
-                                       if e <= b))
-            for order in _orders(msgs, chunk_ends, len(bounds)):
-                found = receiver_case(idxs, cuts, order, little)
-                n_exec += 1
-                if found:
-                    for tag, what in found:
-                        res.violation(
-                            '%s/receiver/%s' % (PROP, tag),
-                            'messages %r, cuts %r, arrival order %s: %s'
-                            % ([BODIES[i][0] for i in idxs], list(cuts),
-                               ''.join(order), what),
-                            {'part': 'recv', 'idxs': list(idxs),
-                             'cuts': list(cuts), 'order': ''.join(order),
-                             'little': little},
-                            size=len(idxs) * 100 + len(order))
-                if 'F' in order and order.index('F') > 0:
-                    res.count('nontrivial')
-                res.outcome(''.join(order))
-        res.count('states')
-        if si % 40 == 0:
-            res.sample({'bodies': [BODIES[i][0] for i in idxs],
-                        'cut_sets': len(cutsets),
-                        'example_order': ''.join(order)})
+        has_fds = any(BODIES[i][2] for i in idxs)
+        # all method calls; and (when descriptors are involved) a stream in
+        # which returns, signals and errors carry them too
+        variants = (0, 1 + si % 4) if has_fds else (0,)
+        if not quick and has_fds:
+            variants = (0, 1, 2, 3, 4)
+        for variant in variants:
+            n_exec += _explore_stream(res, si, idxs, quick, variant)
     res.count('transitions', n_exec)
     res.count('evaluations', n_exec)
     res.count('traces', n_exec)
@@ -297,7 +332,8 @@ def run(ctx):
         'sender: every sequence of <= 3 calls over %d bodies (none, h, hh, '
         'shs, ah with 0/2/3 entries, (hs)h, s) through callRemote on a UNIX '
         'transport; the transport log is grouped by write and compared. '
-        'receiver: the same sequences (all of length <= 2, those of length 3 '
+        'receiver: the same sequences, as method calls and with returns, '
+        'signals and errors carrying the descriptors (all of length <= 2, those of length 3 '
         'with >= 2 descriptors%s) reference-encoded in alternating byte '
         'order, cut by no cut / every single cut%s, and for each cut set '
         'every interleaving of descriptor arrivals and reads in which each '
@@ -321,5 +357,6 @@ def replay(data):
         found = sender_case(tuple(data['idxs']))
         return [('%s/sender/%s' % (PROP, t), w) for t, w in found]
     found = receiver_case(tuple(data['idxs']), tuple(data['cuts']),
-                          tuple(data['order']), data['little'])
+                          tuple(data['order']), data['little'],
+                          tuple(data.get('types') or ()) or None)
     return [('%s/receiver/%s' % (PROP, t), w) for t, w in found]
